@@ -152,3 +152,15 @@ func OwnerOfKey(insts map[string]Inst, key uint32, keep func(Inst) bool) string 
 	}
 	return c[0].owner
 }
+
+// HealthyAt returns the members of walked that the operation accepts and whose heartbeat is not older than the
+// timeout at the instant nowMs - the part of QuorumAt that does not depend on any quorum rule.
+func HealthyAt(insts map[string]Inst, walked []string, op Op, nowMs int64, timeoutMs int64) (healthy []string) {
+	for _, id := range walked {
+		in := insts[id]
+		if op.Healthy[in.State] && nowMs-in.Heartbeat*1000 <= timeoutMs {
+			healthy = append(healthy, id)
+		}
+	}
+	return healthy
+}
